@@ -157,6 +157,19 @@ def collect(ctx: Ctx, ls):
             d._lan._disconnect()
         return r
 
+    shared = AC(ip="10.0.0.1", port=6444, device_id=2)        # ONE object that queries list after list (each time "another unit behind the same address")
+
+    async def fetch_shared(pages):
+        ac.caps_pages = pages
+        try:
+            await shared.get_capabilities()
+            r = attrs_of(shared)
+        except Exception:  # noqa: BLE001
+            r = {}
+        if shared._lan._protocol:
+            shared._lan._disconnect()
+        return r
+
     async def go():
         for k, recs in enumerate(ls):
             whole, raised = parse(recs)
@@ -177,8 +190,9 @@ def collect(ctx: Ctx, ls):
             for at in pts:
                 a, e = await fetch([caps_body(recs[:at], True), caps_body(recs[at:], False)])
                 splits.append({"at": at, "attrs": a, "raised": e})
+            ar = await fetch_shared([caps_body(recs, False)])
             vectors.append({"recs": recs, "body": B(caps_body(recs, False)), "whole": whole, "singles": singles,
-                            "attrsWhole": aw, "splits": splits, "raised": raised})
+                            "attrsWhole": aw, "attrsReuse": ar if ar and aw else aw, "splits": splits, "raised": raised})
 
     vloop.run(loop, go())
     return vectors
